@@ -387,11 +387,6 @@ Proof.
   reflexivity.
 Qed.
 
-(* facts about the first character of a lexeme *)
-Record head_facts (c : N) : Prop := {
-  hf_hash : (c =? 35) = false;
-  hf_ign : is_ignored_char c = false }.
-
 Lemma punct_char_facts c : In c punct_chars ->
   (c =? 35) = false /\ (c =? 34) = false /\ is_ignored_char c = false /\ is_name_continue c = false /\
   is_digit c = false /\ is_dot_or_ns c = false /\ (34 =? c) = false.
@@ -484,7 +479,7 @@ Inductive lexeme_of (tk : token) (lx s' : list N) : Prop :=
 Lemma read_token_ana cu s tk cu' s' : read_token cu s = Ok (tk, cu', s') ->
   exists g lx, s = g ++ lx ++ s' /\ Forall (fun c => is_ignored_char c = true) g /\
     tstart tk = (cpos cu + length g)%nat /\ tend tk = (tstart tk + length lx)%nat /\ cpos cu' = tend tk /\
-    (if tkind tk =? K_EOF then lx = [] /\ s' = [] else lexeme_of tk lx s').
+    (if tkind tk =? K_EOF then lx = [] /\ s' = [] /\ tvalue tk = [] else lexeme_of tk lx s').
 Proof.
   intros H0. pose proof H0 as H. unfold read_token in H.
   destruct (skip_ignored cu s) as [cu1 s1] eqn:Esk.
@@ -493,11 +488,11 @@ Proof.
   assert (Hgl : length (firstn g s) = g) by (apply firstn_length_le; destruct Ag; lia).
   assert (W : forall lx, s1 = lx ++ s' -> tstart tk = cpos cu1 -> tend tk = (cpos cu1 + length lx)%nat ->
               cpos cu' = tend tk ->
-              (if tkind tk =? K_EOF then lx = [] /\ s' = [] else lexeme_of tk lx s') ->
+              (if tkind tk =? K_EOF then lx = [] /\ s' = [] /\ tvalue tk = [] else lexeme_of tk lx s') ->
               exists g lx, s = g ++ lx ++ s' /\ Forall (fun c => is_ignored_char c = true) g /\
                 tstart tk = (cpos cu + length g)%nat /\ tend tk = (tstart tk + length lx)%nat /\
                 cpos cu' = tend tk /\
-                (if tkind tk =? K_EOF then lx = [] /\ s' = [] else lexeme_of tk lx s')).
+                (if tkind tk =? K_EOF then lx = [] /\ s' = [] /\ tvalue tk = [] else lexeme_of tk lx s')).
   { intros lx E1 E2 E3 E4 E5. exists (firstn g s), lx. rewrite Hgl.
     split; [rewrite <- E1; exact Es|]. split; [exact Hg|]. repeat split; try lia; assumption. }
   destruct s1 as [|c t].
@@ -679,11 +674,150 @@ Proof.
     change (34 =? 35) with false. change (34 =? 34) with true. cbv iota.
     rewrite (starts2_loc _ _ _ Hne Hst Fq). rewrite L by lia.
     eexists. eexists. split; [reflexivity|]. cbn [mk tkind tvalue thasval tstart tend cpos length].
-    rewrite Hhv, Hk. repeat split; lia.
+    rewrite Hhv. repeat split; lia.
   - (* block string *)
     rewrite Hk. change (K_BLOCK_STRING =? K_BLOCK_STRING) with true. cbv iota.
     destruct (block_roundtrip_main (tvalue tk) true [] cu2 rest2 Hr (Hsc Hk) (Forall_nil _))
       as (tk2 & cu2' & E & Ek & Eh & Ev & Es & Ee & Ec).
-    cbn [indent_all] in E, Ee. exists tk2, cu2'. rewrite Hk, Hhv. repeat split; auto; lia.
+    cbn [indent_all] in E, Ee. exists tk2, cu2'. rewrite Hhv. repeat split; auto; lia.
   - rewrite Hk in Hnc. discriminate.
+Qed.
+
+Lemma retext_nonempty tk lx s' : lexeme_of tk lx s' -> (tkind tk =? K_COMMENT) = false ->
+  (1 <= length (retext tk lx))%nat.
+Proof.
+  unfold retext. intros HL Hnc.
+  destruct (tkind tk =? K_BLOCK_STRING) eqn:Eb.
+  { unfold print_block_string. cbv zeta. rewrite app_length. cbn [TQ length]. lia. }
+  destruct HL as [c -> _ _ _ | -> _ _ _ | c b -> _ _ _ _ _ _
+                 | fl Hhd _ _ _ _ _ | body -> _ _ _ _ _ | Hk _ _ | Hk]; cbn [length]; try lia.
+  - destruct lx; [discriminate|cbn; lia].
+  - rewrite Hk in Eb. discriminate.
+  - rewrite Hk in Hnc. discriminate.
+Qed.
+
+Lemma sep_before_cases last k : sep_before last k = [] \/ sep_before last k = [32].
+Proof. unfold sep_before. destruct (last && _); auto. Qed.
+
+Lemma relex_gap tk txt rest2 :
+  (forall cu2, relexed tk txt cu2 (txt ++ rest2) rest2 0) ->
+  forall sep cu2, (sep = [] \/ sep = [32]) -> relexed tk txt cu2 (sep ++ txt ++ rest2) rest2 (length sep).
+Proof.
+  intros H sep cu2 [->| ->]; [exact (H cu2)|].
+  destruct (H (mkCur (S (cpos cu2)) (cline cu2) (cls cu2))) as (tk2 & cu2' & E & Hk & Hv & Hh & Hs & He & Hc).
+  exists tk2, cu2'. cbn [app length]. rewrite read_token_space. cbn [cpos] in Hs.
+  repeat split; auto; lia.
+Qed.
+
+(* ================================================================== *)
+(* G. the whole text                                                   *)
+(* ================================================================== *)
+
+Lemma slice_lexeme body p g lx s' : skipn p body = g ++ lx ++ s' ->
+  slice body (p + length g) (p + length g + length lx) = lx.
+Proof.
+  intros H. unfold slice. replace (p + length g + length lx - (p + length g))%nat with (length lx) by lia.
+  rewrite <- skipn_skipn', H, skipn_app_length. apply firstn_app_length.
+Qed.
+
+Lemma suffix_step body p g lx s' : skipn p body = g ++ lx ++ s' ->
+  skipn (p + length g + length lx) body = s'.
+Proof.
+  intros H. rewrite <- Nat.add_assoc, <- skipn_skipn', H.
+  rewrite <- skipn_skipn', skipn_app_length. apply skipn_app_length.
+Qed.
+
+Lemma token_text_retext body cu s tk g lx s' :
+  skipn (cpos cu) body = s -> s = g ++ lx ++ s' ->
+  tstart tk = (cpos cu + length g)%nat -> tend tk = (tstart tk + length lx)%nat ->
+  token_text body tk = retext tk lx.
+Proof.
+  intros Hb Hs Hst Hen. unfold token_text, retext. destruct (tkind tk =? K_BLOCK_STRING); [reflexivity|].
+  rewrite Hen, Hst. apply (slice_lexeme body (cpos cu) g lx s'). congruence.
+Qed.
+
+Lemma scalars_parts g lx s' : scalars (g ++ lx ++ s') -> scalars s'.
+Proof. unfold scalars. intros H. apply Forall_app in H as [_ H]. apply Forall_app in H as [_ H]. exact H. Qed.
+
+Lemma eof_token_nil cu : read_token cu [] = Ok (mk K_EOF cu (cpos cu) (cpos cu) None, cu, []).
+Proof. reflexivity. Qed.
+
+Lemma strip_main fuel : forall body cu s last ts,
+  skipn (cpos cu) body = s -> scalars s -> lex_loop fuel cu s = Ok ts ->
+  exists out, strip_loop fuel body cu s last = Ok out /\ (last = true -> follow_ok out) /\
+    forall fuel2 body2 cu2, (length out < fuel2)%nat -> skipn (cpos cu2) body2 = out ->
+      (exists ts2, lex_loop fuel2 cu2 out = Ok ts2 /\
+                   map tok_sig (significant ts2) = map tok_sig (significant ts) /\
+                   tight last (cpos cu2) out ts2) /\
+      strip_loop fuel2 body2 cu2 out last = Ok out.
+Proof.
+  induction fuel as [|f IH]; intros body cu s last ts Hbody Hsc Hlex; [discriminate|].
+  cbn [lex_loop] in Hlex. cbn [strip_loop].
+  destruct (read_token cu s) as [[[tk cu'] s']| | |] eqn:Ert; try discriminate.
+  destruct (read_token_ana _ _ _ _ _ Ert) as (g & lx & Es & Hg & Hst & Hen & Hcu' & Hcls).
+  destruct (tkind tk =? K_EOF) eqn:Ek.
+  - (* end of the source *)
+    destruct Hcls as (_ & _ & Hval). inversion Hlex; subst ts. exists []. split; [reflexivity|].
+    split; [intros _; exact I|]. intros fuel2 body2 cu2 Hf _. destruct fuel2 as [|f2]; [cbn in Hf; lia|].
+    cbn [lex_loop strip_loop]. rewrite eof_token_nil. cbn [mk tkind]. change (K_EOF =? K_EOF) with true. cbv iota.
+    split; [|reflexivity]. eexists. split; [reflexivity|]. split.
+    + apply N.eqb_eq in Ek. unfold significant. cbn [filter mk tkind]. rewrite Ek.
+      change (negb (K_EOF =? K_COMMENT)) with true. cbv iota. cbn [map]. unfold tok_sig.
+      cbn [mk tkind tvalue]. rewrite Ek, Hval. reflexivity.
+    + apply tight_eof; reflexivity.
+  - destruct (lex_loop f cu' s') as [ts'| | |] eqn:El; try discriminate. inversion Hlex; subst ts. clear Hlex.
+    assert (Hbody' : skipn (cpos cu') body = s').
+    { rewrite Hcu', Hen, Hst. apply (suffix_step body (cpos cu) g lx s'). congruence. }
+    assert (Hsc' : scalars s') by (rewrite Es in Hsc; exact (scalars_parts _ _ _ Hsc)).
+    destruct (tkind tk =? K_COMMENT) eqn:Ec.
+    + (* a comment is skipped *)
+      destruct (IH body cu' s' last ts' Hbody' Hsc' El) as (out & Eo & Hfo & Hre).
+      exists out. split; [exact Eo|]. split; [exact Hfo|]. intros fuel2 body2 cu2 Hf Hb2.
+      destruct (Hre fuel2 body2 cu2 Hf Hb2) as ((ts2 & E2 & Hsig & Ht) & Hid).
+      split; [|exact Hid]. exists ts2. split; [exact E2|]. split; [|exact Ht].
+      rewrite Hsig. unfold significant. cbn [filter]. rewrite Ec. reflexivity.
+    + (* a significant token *)
+      set (np := negb (is_punct_kind (tkind tk))).
+      destruct (IH body cu' s' np ts' Hbody' Hsc' El) as (out' & Eo & Hfo & Hre). rewrite Eo.
+      set (sep := sep_before last (tkind tk)).
+      assert (Etxt : token_text body tk = retext tk lx)
+        by (eapply token_text_retext; eauto).
+      rewrite Etxt. set (txt := retext tk lx).
+      exists (sep ++ txt ++ out'). split; [reflexivity|].
+      assert (Hscv : tkind tk = K_BLOCK_STRING -> scalars (tvalue tk)).
+      { intros Hk. exact (block_token_scalars cu s tk cu' s' Hsc Ert Hk). }
+      assert (Hfol : is_punct_kind (tkind tk) = true \/ follow_ok out').
+      { destruct (is_punct_kind (tkind tk)) eqn:Ep; [left; reflexivity|right]. apply Hfo. reflexivity. }
+      assert (Hntxt : (1 <= length txt)%nat) by (eapply retext_nonempty; eauto).
+      split.
+      { (* what follows a non-punctuator *)
+        intros ->. unfold sep, sep_before. cbn [andb].
+        destruct (negb (is_punct_kind (tkind tk)) || (tkind tk =? K_SPREAD)) eqn:Esp.
+        - cbn [app follow_ok]. left. reflexivity.
+        - apply orb_false_iff in Esp as [Ep Esp]. apply negb_false_iff in Ep. cbn [app].
+          destruct Hcls as [c -> Hpk _ _ | _ Hk _ _ | c b _ _ _ _ Hk _ _
+                 | fl _ _ _ Hk _ _ | body0 _ _ _ _ Hk _ | Hk _ _ | Hk];
+            try (rewrite Hk in Ep; try destruct fl; discriminate).
+          + unfold txt, retext. destruct (punct_kind_some _ _ Hpk) as (Hin & _ & _ & _ & _ & ->).
+            cbn [app follow_ok]. right. exact Hin.
+          + rewrite Hk in Esp. discriminate.
+          + rewrite Hk in Ec. discriminate. }
+      intros fuel2 body2 cu2 Hf Hb2. destruct fuel2 as [|f2]; [cbn in Hf; lia|].
+      destruct (relex_gap tk txt out' (fun c2 => relex0 tk lx s' Hcls Ec Hscv c2 out' Hfol) sep cu2
+                  (sep_before_cases last (tkind tk)))
+        as (tk2 & cu2' & E2 & Hk2 & Hv2 & Hh2 & Hs2 & He2 & Hc2).
+      assert (Hb2' : skipn (cpos cu2') body2 = out').
+      { rewrite Hc2, He2, Hs2. apply (suffix_step body2 (cpos cu2) sep txt out'). exact Hb2. }
+      assert (Hf' : (length out' < f2)%nat) by (rewrite !app_length in Hf; lia).
+      destruct (Hre f2 body2 cu2' Hf' Hb2') as ((ts2 & El2 & Hsig & Ht) & Hid).
+      cbn [lex_loop strip_loop]. rewrite E2, Hk2, Ek, Ec, El2. fold np. rewrite Hid. split.
+      * exists (tk2 :: ts2). split; [reflexivity|]. split.
+        -- unfold significant. cbn [filter]. rewrite Hk2, Ec. cbn [negb map]. fold (significant ts2).
+           fold (significant ts'). rewrite Hsig. unfold tok_sig at 1 3. rewrite Hk2, Hv2. reflexivity.
+        -- unfold sep. rewrite <- Hk2. apply tight_tok; rewrite ?Hk2; auto.
+           rewrite Hc2 in Ht. rewrite <- Hk2 in Ht. exact Ht.
+      * fold sep. f_equal. f_equal. f_equal.
+        unfold token_text. rewrite Hk2, Hv2. fold (retext tk lx). unfold txt, retext at 1.
+        destruct (tkind tk =? K_BLOCK_STRING); [reflexivity|].
+        rewrite He2, Hs2. apply (slice_lexeme body2 (cpos cu2) sep _ out'). exact Hb2.
 Qed.
